@@ -20,6 +20,7 @@ props! {
     c02 => "C02",
     c03 => "C03",
     c04 => "C04",
+    c05 => "C05",
     c06 => "C06",
     c07 => "C07",
     c08 => "C08",
@@ -35,6 +36,23 @@ props! {
 }
 
 /// property-specific child-process sub-commands
-pub fn helper(_cmd: &str, _args: &[String]) -> Option<i32> {
-    None
+pub fn helper(cmd: &str, args: &[String]) -> Option<i32> {
+    match cmd {
+        // development aid: print the reference model's view of a TZif file (validated against CPython's zoneinfo)
+        "zone-model-dump" => {
+            let bytes = std::fs::read(&args[0]).ok()?;
+            let m = crate::refmodel::zone::read_tzif(&bytes)?;
+            let mut pts: Vec<i64> = m.transitions.iter().map(|t| t.0).filter(|t| *t > -5_000_000_000).collect();
+            for y in [1995i64, 2024, 2037, 2040, 2100] {
+                pts.extend(m.change_points_near(crate::refmodel::cal::days_from_civil(y, 6, 1) * 86_400).into_iter().filter(|t| *t > m.transitions.last().map(|l| l.0).unwrap_or(i64::MIN)));
+            }
+            for t in pts {
+                for u in [t - 1, t, t + 1] {
+                    println!("{u} {} {:?}", m.offset_at(u), m.preimage(u + m.offset_at(u) as i64));
+                }
+            }
+            Some(0)
+        }
+        _ => None,
+    }
 }
